@@ -28,6 +28,9 @@ def root_res(n, locs, limit=12, stop=()):
             if locs is not None and n["res"] in locs.defs and n["res"] not in stop:
                 r = root_res(locs.defs[n["res"]], locs, limit, stop)
                 return r if r is not None else n["res"]
+            if locs is not None and n["res"] in getattr(locs, "payload_defs", {}) and n["res"] not in stop:
+                r = root_res(locs.payload_defs[n["res"]], locs, limit, stop)
+                return r if r is not None else n["res"]
             return n["res"]
         if k == "MCall":
             n = n["recv"]
